@@ -7,7 +7,7 @@ set -u
 SRC=$(readlink -f "$1"); ID=$2
 WT=/tmp/confirm-$ID-$$
 export GOFLAGS=-mod=mod GOPROXY=off
-LOC=$(python3 -c "import json,sys;print(json.load(open('$SRC/meta.json'))['demo_location'])")
+LOC=$(python3 -c "import json,sys;print(json.load(open('$SRC/meta.json'))['demo_location'].split()[0].rstrip('/'))")
 git -C /repo worktree add -q "$WT" HEAD || exit 2
 OUT=/tmp/confirm-$ID-$$.log; : > "$OUT"
 fail() { echo "NOT CONFIRMED $ID: $1"; tail -15 "$OUT"; git -C /repo worktree remove --force "$WT"; exit 1; }
@@ -15,6 +15,7 @@ cd "$WT"
 git apply "$SRC/patch.diff" || fail "patch does not apply"
 (go build ./... && cd cmd/rdfkit && go build ./...) >> "$OUT" 2>&1 || fail "does not build"
 (go test -vet=off -count=1 ./... && cd cmd/rdfkit && go test -vet=off -count=1 ./...) >> "$OUT" 2>&1 || fail "existing suite fails with the change"
+[ -d "$LOC" ] || fail "demo_location $LOC is not a directory"
 cp "$SRC"/demo_test.go "$LOC"/zz_seed_demo_test.go
 runloc() { case "$LOC" in cmd/rdfkit/*) (cd cmd/rdfkit && go test -vet=off -count=1 ./"${LOC#cmd/rdfkit/}"/ 2>&1);; *) go test -vet=off -count=1 ./"$LOC"/ 2>&1;; esac; }
 WITH=$(runloc | tail -12)
